@@ -249,3 +249,98 @@ def c03_3(I, shape):
                 "tls13-client-rejects-downgrade-sentinels")
     if vsettings.maxVersion == (3, 3) and version < (3, 3):
         I.check(NOT(is11), "tls12-client-rejects-tls11-sentinel")
+
+
+# ---------------------------------------------------------------------------
+# C03.4  the server does not refuse an offer it is compatible with
+# ---------------------------------------------------------------------------
+
+def _shapes_c03_4(tier):
+    out = []
+    for cred in ("rsa", "ecdsa"):
+        for groups in ("x25519", "secp256r1", "secp384r1", "x25519+secp256r1"):
+            for tls13 in (True, False):
+                out.append(dict(cred=cred, groups=groups, tls13=tls13))
+    return out
+
+
+@obligation("C03.4", _shapes_c03_4, functions=SRV_FUNCS,
+            assumes=HELLO_ASSUMES + [
+                "ClientHello offering TLS 1.3 (or TLS 1.2 only) with the "
+                "enumerated supported_groups/key_share and signature "
+                "algorithms for both RSA and ECDSA P-256; default server "
+                "settings; compatibility oracle written from RFC 8446 4.2.7 "
+                "(groups constrain the key exchange only) and RFC 8422 5.1.1 "
+                "(TLS <= 1.2: the certificate's curve must be among the "
+                "client's groups)"],
+            patches=lambda s: (hello_proxies(), hello_stubs()),
+            max_paths=4000, also=("C19",))
+def c03_4(I, shape):
+    """compatible offers are answered with a selection, not an alert"""
+    chain, key = (RSA_CHAIN, RSA_KEY) if shape["cred"] == "rsa" \
+        else (EC_CHAIN, EC_KEY)
+    gmap = {"x25519": GroupName.x25519, "secp256r1": GroupName.secp256r1,
+            "secp384r1": GroupName.secp384r1}
+    groups = [gmap[g] for g in shape["groups"].split("+")]
+    sigalgs = [(8, 4), (4, 1), (4, 3), (5, 3)]
+    exts = std_extensions(shape["tls13"], groups=groups, sigalgs=sigalgs,
+                          key_share_groups=groups[:1])
+    suites = [CipherSuite.TLS_AES_128_GCM_SHA256,
+              CipherSuite.TLS_ECDHE_RSA_WITH_AES_128_GCM_SHA256,
+              CipherSuite.TLS_ECDHE_ECDSA_WITH_AES_128_GCM_SHA256]
+    rnd = I.bytes(32, "client_random")
+    wire = record(ContentType.handshake,
+                  ch_bytes((3, 3), suites, exts, random=newbuf(list(rnd))))
+    conn = server_conn(wire)
+    settings = family()["default"]
+    out = run_server_hello(conn, settings, chain, key)
+    if shape["tls13"]:
+        compatible = True
+    else:
+        # TLS 1.2 ECDHE: a common curve is needed; for an ECDSA certificate
+        # its own curve (P-256) must be supported by the client
+        compatible = shape["cred"] == "rsa" or \
+            GroupName.secp256r1 in groups
+    if compatible:
+        I.check(out["kind"] == "ret", "compatible-offer-is-not-refused",
+                detail=lambda: dict(kind=out["kind"],
+                                    alert=str(out.get("alert"))))
+        if out["kind"] == "ret":
+            version = out["result"][1]
+            I.check(version == ((3, 4) if shape["tls13"] else (3, 3)),
+                    "highest-common-version-selected")
+    else:
+        I.check(out["kind"] == "alert", "incompatible-offer-gets-an-alert")
+
+
+# ---------------------------------------------------------------------------
+# C03.5  record size limits after Finished (TLS <= 1.2)
+# ---------------------------------------------------------------------------
+
+@obligation("C03.5", lambda tier: [dict(client=c) for c in (True, False)],
+            functions=["tlslite.tlsconnection:TLSConnection._sendFinished"],
+            assumes=["_sendFinished is run on a real connection with the "
+                     "peer's advertised record_size_limit and the own "
+                     "setting as symbolic integers (64..2^14+1); calc_key "
+                     "and the cipher state change are stubs"],
+            patches=lambda s: (hello_proxies(), hello_stubs() + [
+                (tc, "calc_key", lambda *a, **k: bytearray(12))]))
+def c03_5(I, shape):
+    """after the handshake each side sends at most what the PEER advertised
+    and accepts what IT advertised itself (RFC 8449): the two limits are
+    independent"""
+    from models.conn import make_conn
+    peer = I.int_range(64, 2 ** 14, "peer_limit")
+    own = I.int_range(64, 2 ** 14 + 1, "own_limit")
+    conn, sock = make_conn((3, 3), shape["client"], session=False)
+    conn._changeWriteState = lambda: None
+    conn._peer_record_size_limit = peer
+
+    class S(object):
+        record_size_limit = own
+    for r in conn._sendFinished(bytearray(48), 0x2f, None, settings=S()):
+        pass
+    I.check(conn._send_record_limit == peer,
+            "send-limit-is-what-the-peer-advertised")
+    I.check(conn._recv_record_limit == ite(own < 2 ** 14, own, 2 ** 14),
+            "receive-limit-is-the-own-setting-capped-at-2^14")
